@@ -10,7 +10,6 @@
 (*    resolver calls and gate completions the index of the root field never    *)
 (*    decreases.                                                               *)
 EXTENDS Execute, Json, IOUtils
-W == INSTANCE Wire
 Cases == JsonDeserialize(IOEnv.CASES)
 VARIABLE i
 Init == i \in 1..Len(Cases)
@@ -20,12 +19,6 @@ ErrorUnderNull(data, e) == LET w == W!Walk(data, e) IN w.found /\ (w.stoppedAtNu
 WellFormed(resp) ==
   /\ \A k \in 1..Len(resp.errors) : ErrorUnderNull(resp.data, resp.errors[k])
   /\ (resp.data = Null => resp.errors # <<>>)
-\* the position nulled by an error: the shortest prefix of its path at which data is null
-RECURSIVE NullPrefix(_, _, _)
-NullPrefix(data, e, k) == IF k > Len(e) THEN e
-                          ELSE LET w == W!Walk(data, SubSeq(e, 1, k)) IN
-                               IF w.found /\ ~w.stoppedAtNull /\ w.v # Null THEN NullPrefix(data, e, k + 1) ELSE SubSeq(e, 1, k)
-NulledPositions(resp) == {NullPrefix(resp.data, resp.errors[k], 0) : k \in 1..Len(resp.errors)}
 SameOutcome(a, b) == a.data = b.data /\ NulledPositions(a) = NulledPositions(b)
 
 RootKeys(c) == LET R == [schema |-> c.schema, doc |-> c.doc, vals |-> CoerceVars(c.doc.vardefs, c.vars, <<>>).vals]
